@@ -27,6 +27,7 @@ def run(ctx):
     watchlib.selftest(ctx, groups, files, {r["tid"] for r in rej})
     # the repository's own test suites with the hooks on: every watch start, ring read and hand-off they cause is judged
     inmemlib.stage(ctx, "C02", ctx.tier)
+    watchlib.threaded(ctx, "C02", 150 if quick else 3000)
     ctx.assumptions += [
         "watcher read timing on the real code is eager (after each publish) or late (after a burst under GOMAXPROCS(1)); all read interleavings are exhaustive only in the TLC model",
         "subscriber lag (committed events not yet received) bounds the ring lag from above, so errored => lag > InitCap is sound",
